@@ -34,6 +34,7 @@ EDGE = {
     "persistent_to_detached": ("S", "X"),
 }
 SHORT = {k: (v[0] or "L") + "2" + v[1] for k, v in EDGE.items()}
+NAME = {"T": "transient", "P": "pending", "S": "persistent", "D": "deleted", "X": "detached"}
 
 FLUSH = {("P", "S"), ("S", "D")}
 ROLL = {("P", "T"), ("S", "T"), ("D", "S")}
@@ -59,6 +60,17 @@ ALLOWED = {
     "nrollback": ROLL,
     "close": {("P", "T"), ("S", "X"), ("D", "X")},
     "expunge_all": {("P", "T"), ("S", "X"), ("D", "X")},
+}
+
+
+# operations grouped by what they are documented to do (keys of check C are per class)
+OPCLASS = {
+    "new": "none", "expire": "none", "mtd": "none",
+    "add": "attach", "delete": "attach",
+    "expunge": "detach", "close": "detach", "expunge_all": "detach", "mt": "detach",
+    "flush": "flush", "nbegin": "flush", "ncommit": "flush", "setpk": "flush", "refresh": "flush",
+    "get": "load", "merge": "load", "query": "load",
+    "commit": "commit", "rollback": "rollback", "nrollback": "rollback",
 }
 
 
@@ -107,7 +119,7 @@ def check_case(eoc, ops, recs):
                         was_deleted_before=(prev_objs[i]["was_deleted"] if not is_new else False))
             if not okc:
                 e = evs[badn]
-                return dict(base, check="B", sig="%s-fired-in-state-%s" % (e, reached or "none"),
+                return dict(base, check="B", sig="%s-fired-while-instance-was-not-%s" % (e, e.split("_to_")[0].split("_as_")[0]),
                             detail="instance %d was %s; during %s event %s fired while it was %s (events %s, now %s)"
                             % (i, p, ":".join(map(str, op)), e, reached, evs, cur[i]))
             silent_ok = False
@@ -117,12 +129,12 @@ def check_case(eoc, ops, recs):
                 elif kind == "mtd" and reached == "T" and cur[i] == "X" and op[1] == i:
                     silent_ok = True
                 if not silent_ok:
-                    return dict(base, check="B", sig="now-%s-but-events-lead-to-%s" % (cur[i], reached or "none"),
+                    return dict(base, check="B", sig="instance-ends-%s-but-logged-events-end-in-%s" % (NAME[cur[i]], NAME.get(reached, "none")),
                                 detail="instance %d was %s, events %s lead to %s, but it is %s after %s"
                                 % (i, p, evs, reached, cur[i], ":".join(map(str, op))))
             for e in evs:
                 if EDGE[e] not in ALLOWED[kind]:
-                    return dict(base, check="C", sig="%s-during-%s" % (e, kind),
+                    return dict(base, check="C", sig="%s-outside-its-documented-operations" % e,
                                 detail="instance %d: %s is not a documented transition of %s" % (i, e, kind))
         # C: what the operation documents to clear
         if not failed:
